@@ -66,7 +66,7 @@ V_ASSUME = ["go1.26.8 testing/synctest schedules the real library code faithfull
 
 def plan_C01(tier, seed, q):
     return {"level": "exploration", "rule": E2E_RULE + "; oracle: reply == f(own args) byte for byte and handler saw exactly those args",
-            "jobs": e2e_jobs("C01", tier, seed, "mix", 420, 6000, race_t=600) + real_jobs("C01", tier, seed, "mix", 60, 2000, race_t=300),
+            "jobs": e2e_jobs("C01", tier, seed, "mix", 420, 6000, race_t=600) + real_jobs("C01", tier, seed, "mix", 60, 600, race_t=120),
             "min_evaluations": 100, "min_distinct": 50, "assumptions": V_ASSUME}
 
 
@@ -74,7 +74,7 @@ def plan_C05(tier, seed, q):
     return {"level": "exploration", "rule": E2E_RULE + "; profile 'order': server pipelining on, one issuer per connection using Go on a shared Done "
             "channel; oracles: handler entry order == issue order per connection, no overlap, wire response order == request order, "
             "arrival order on Done == issue order when the client pipelines too",
-            "jobs": e2e_jobs("C05", tier, seed, "order", 300, 4000, race_t=400) + real_jobs("C05", tier, seed, "order", 48, 1500, race_t=200, poll=1),
+            "jobs": e2e_jobs("C05", tier, seed, "order", 300, 4000, race_t=400) + real_jobs("C05", tier, seed, "order", 48, 400, race_t=96, poll=1),
             "min_evaluations": 100, "min_distinct": 50, "assumptions": V_ASSUME}
 
 
@@ -91,7 +91,7 @@ def plan_C09(tier, seed, q):
     return {"level": "exploration", "rule": E2E_RULE + "; profile 'streams': 1-16 streams per connection, handler pushes 0/1/5 messages right after open, "
             "client writes first or reads first, echo/sink/burst steps, unary traffic alongside; oracles: sequence equality on both ends, "
             "no reader blocked at quiescence",
-            "jobs": e2e_jobs("C09", tier, seed, "streams", 400, 6000, race_t=600) + e2e_jobs("C09", tier, seed + 7, "mix", 120, 1500) + real_jobs("C09", tier, seed, "streams", 48, 1500, race_t=200),
+            "jobs": e2e_jobs("C09", tier, seed, "streams", 400, 6000, race_t=600) + e2e_jobs("C09", tier, seed + 7, "mix", 120, 1500) + real_jobs("C09", tier, seed, "streams", 48, 500, race_t=96),
             "min_evaluations": 100, "min_distinct": 50, "assumptions": V_ASSUME}
 
 
@@ -99,7 +99,7 @@ def plan_C11(tier, seed, q):
     return {"level": "exploration", "rule": E2E_RULE + "; profile 'retain': aliasing codecs (bytes, pb, code), handlers keep their argument slices, callers keep "
             "replies (fresh and context-buffer) and stream messages, GC forced every 3 virtual ms; oracles: SHA-256 at hand-over == "
             "SHA-256 at the end, canary bytes of caller-supplied buffers beyond the encoded reply untouched",
-            "jobs": e2e_jobs("C11", tier, seed, "retain", 240, 3000, race_t=300) + e2e_jobs("C11", tier, seed + 7, "mix", 120, 1500) + real_jobs("C11", tier, seed, "retain", 36, 1000, race_t=200),
+            "jobs": e2e_jobs("C11", tier, seed, "retain", 240, 1500, race_t=200) + e2e_jobs("C11", tier, seed + 7, "mix", 120, 1500) + real_jobs("C11", tier, seed, "retain", 36, 300, race_t=72),
             "min_evaluations": 100, "min_distinct": 50, "assumptions": V_ASSUME}
 
 
@@ -383,7 +383,7 @@ R_ASSUME = ["real-network scenarios use loopback TCP ports chosen by the kernel 
 
 def plan_C04(tier, seed, q):
     jobs = (e2e_jobs("C04", tier, seed, "mix", 300, 4000, race_t=400) + e2e_jobs("C04", tier, seed + 3, "errors", 200, 3000)
-            + real_jobs("C04", tier, seed, "mix", 48, 1500, race_t=300)
+            + real_jobs("C04", tier, seed, "mix", 48, 500, race_t=96)
             + pool_jobs("C04", tier, seed, [("limits", 300 if q else 6000)], shards=6)
             + cut_jobs("C04", tier, seed, [], [0, 1, 2, 6], 9 if q else 2, 4))
     return {"level": "exploration", "rule": E2E_RULE + "; oracles: handler ledger shows exactly one execution per successful or handler-failed call, none for unknown "
